@@ -35,7 +35,10 @@ func main() {
 			fmt.Println("replay not available for", id)
 			os.Exit(2)
 		}
-		os.Exit(p.Replay(os.Args[3]))
+		rt.ScratchRoot()
+		code := p.Replay(os.Args[3])
+		rt.Cleanup()
+		os.Exit(code)
 	}
 	tier := os.Args[2]
 	if t := os.Getenv("VERIF_TIER"); t != "" && tier != "quick" && tier != "thorough" {
@@ -54,6 +57,9 @@ func main() {
 		ctx.Deadline = time.Now().Add(budget)
 	}
 	ctx.Pool = rt.NewPool(id)
+	rt.ScratchRoot()
 	p.Run(ctx)
-	os.Exit(ctx.Finish())
+	code := ctx.Finish()
+	rt.Cleanup()
+	os.Exit(code)
 }
